@@ -1,0 +1,14 @@
+//go:build verif
+
+package parser
+
+// VerifPoolGate, when set by a verification harness, is called at the points where
+// this package takes an object from, or returns it to, one of its pools. A blocking
+// function turns it into a scheduler gate for deterministic interleaving replay.
+var VerifPoolGate func(point string)
+
+func verifPoolGate(point string) {
+	if f := VerifPoolGate; f != nil {
+		f(point)
+	}
+}
